@@ -1,5 +1,5 @@
 import PyramidModel.Lemmas.ActionsSort
-import PyramidModel.Lemmas.ActionsDyn
+import PyramidModel.Lemmas.ActionsRun
 /-!
 # C04 — commit resolves configuration conflicts by include depth, or reports them
 
@@ -88,42 +88,33 @@ theorem group_conflict_names_contested (log g : List Act) (hn : IdsNodup g) (ks 
     (h : resolveGroup log g = .error ks) : ks ≠ [] ∧ ∀ d ∈ contested log g, d ∈ ks :=
   ⟨(resolveGroup_error hn h).1, (resolveGroup_error hn h).2.2.1⟩
 
-/-- PARTIAL (full statement: the error names *exactly* the contested discriminators, for every
-group).  Proved under `LateHeaded log g`: for each discriminator that has already been executed, the
-group's actions carrying it are headed by one of themselves (true whenever a phase holds at most one
-late action per executed discriminator).  Without it the code also names a discriminator whose
-executed action is a strict prefix of all the group's actions for it — finding F-C04b, see
-`late_siblings_conflict`. -/
-theorem group_conflict_exact_partial (log g : List Act) (hn : IdsNodup g) (hl : LateHeaded log g)
+/-- `group_conflict_exact` — FULL: for every phase group and every history, a conflict error names
+*exactly* the contested discriminators (`contested_iff` spells them out), in first-occurrence order. -/
+theorem group_conflict_exact (log g : List Act) (hn : IdsNodup g)
     (ks : List Nat) (h : resolveGroup log g = .error ks) : ks = contested log g :=
-  (resolveGroup_error hn h).2.2.2 hl
+  (resolveGroup_error hn h).2.2.2
 
-/-- PARTIAL (same restriction): an uncontested group is accepted. -/
-theorem group_uncontested_accepted_partial (log g : List Act) (hn : IdsNodup g) (hl : LateHeaded log g)
+/-- `group_uncontested_accepted` — FULL: a group without contested discriminators is accepted, and emits
+`groupRuns`.  Together with `group_accept_sound`: accepted ⇔ nothing contested. -/
+theorem group_uncontested_accepted (log g : List Act) (hn : IdsNodup g)
     (hc : contested log g = []) : ∃ ov, resolveGroup log g = .ok (groupRuns log g, ov) :=
-  resolveGroup_ok_of_uncontested hn hl hc
+  resolveGroup_ok_of_uncontested hn hc
 
-/-- F-C04b, the witness that the restriction is needed (replayed on the real code by the harness,
-corpus/C04/f_c04b_*.json): discriminator 1 was executed from include path `[1]`; two later actions
-carry it from `[1,2]` and `[1,3]`.  Both lie strictly below the executed action, so the discriminator
-is settled and the statement wants them silently discarded; the resolver raises a conflict naming it. -/
-theorem late_siblings_conflict :
+/-- Regression witness of the repaired defect F-C04b "late siblings" (d8099dc; replayed on the real code by
+the harness, corpus/C04/f_c04b_*.json).  Discriminator 1 was executed from include path `[1]`; two later
+actions carry it from `[1,2]` and `[1,3]`.  Both lie strictly below the executed action, so the
+discriminator is settled: model and specification discard both silently — in a later phase, and when they
+are appended by an executing action of the same phase.  (Before the repair `rest` was compared with the
+group's first action and the resolver answered `conflict [1]`; `group_conflict_exact` and
+`group_uncontested_accepted` were false at this point and carried a hypothesis excluding it.) -/
+theorem late_siblings_discarded :
     let log : List Act := [⟨0, .val 1, 0, [1]⟩]
     let g : List Act := [⟨1, .val 1, 10, [1, 2]⟩, ⟨2, .val 1, 10, [1, 3]⟩]
-    contested log g = [] ∧ (resolveGroup log g).toOption = none ∧ ¬ LateHeaded log g ∧
-      run noKids 4 (log ++ g) = (.conflict [1], [0]) ∧ specRun (log ++ g) = (.ok, [0]) := by
-  refine ⟨by decide, by decide, ?_, by decide, by decide⟩
-  intro h
-  rcases h 1 (by decide) with h | ⟨w, hw, hh⟩
-  · revert h; decide
-  · have hw' : w = ⟨1, .val 1, 10, [1, 2]⟩ ∨ w = ⟨2, .val 1, 10, [1, 3]⟩ := by
-      have : w ∈ [(⟨1, .val 1, 10, [1, 2]⟩ : Act), ⟨2, .val 1, 10, [1, 3]⟩] := hw
-      simpa using this
-    rcases hw' with rfl | rfl
-    · have := hh ⟨2, .val 1, 10, [1, 3]⟩ (by decide)
-      revert this; decide
-    · have := hh ⟨1, .val 1, 10, [1, 2]⟩ (by decide)
-      revert this; decide
+    let kids : Nat → List Act := fun i => if i = 0 then [⟨1, .val 1, 0, [1, 2]⟩, ⟨2, .val 1, 0, [1, 3]⟩, ⟨3, .none, 0, []⟩] else []
+    contested log g = [] ∧ (resolveGroup log g).toOption = some ([], [1, 2]) ∧
+      run noKids 4 (log ++ g) = (.ok, [0]) ∧ specRun (log ++ g) = (.ok, [0]) ∧
+      run kids 4 log = (.ok, [0, 3]) := by
+  refine ⟨by decide, by decide, by decide, by decide, by decide⟩
 
 /-! ## clash with an action that has already run (earlier phase, or earlier in a re-entrant commit) -/
 
@@ -169,15 +160,15 @@ theorem reentrant_clash_dropped (log g : List Act) (hn : IdsNodup g) (x p : Act)
 
 /-! ## whole commits without re-entrancy -/
 
-/-- `static_resolution` — PARTIAL only in the hypothesis `LateOK` (F-C04b excluded).  For every program
-whose actions add nothing and carry plain discriminators, with distinct ids, the commit is the phase
+/-- `static_resolution_phases` — FULL.  For every program whose actions add nothing and carry plain
+discriminators, with distinct ids (any number of actions, phases, include paths), the commit is the phase
 specification: phases in increasing order; the first phase with contested discriminators stops the
-commit with a conflict naming exactly those; every earlier phase ran exactly its `groupRuns`.
-`LateOK [] top`: whenever a discriminator occurs in two different phases, the later phase's actions
-carrying it are headed by one of themselves. -/
-theorem static_resolution_partial (top : List Act) (hn : IdsNodup top) (hp : Plain top) (hl : LateOK [] top)
+commit with a conflict naming exactly those; every earlier phase ran exactly its `groupRuns` (the
+actions without discriminator and the winners of discriminators not executed in an earlier phase, in
+declaration order) and silently discarded the rest. -/
+theorem static_resolution_phases (top : List Act) (hn : IdsNodup top) (hp : Plain top)
     (fuel : Nat) (hf : top.length < fuel) : run noKids fuel top = specRun top :=
-  run_static top hn hp hl fuel hf
+  run_static top hn hp fuel hf
 
 /-- all actions in one phase -/
 def SinglePhase (top : List Act) (c : Int) : Prop := ∀ a ∈ top, a.order = c
@@ -188,17 +179,6 @@ instance (top : List Act) (c : Int) : Decidable (SinglePhase top c) := by unfold
 every other action with `d`. -/
 def Wins (top : List Act) (d : Nat) (w : Act) : Prop :=
   w ∈ top ∧ w.key = some d ∧ ∀ x ∈ top, x.key = some d → x.id = w.id ∨ StrictPrefix w.path x.path
-
-theorem singlePhase_lateOK {top : List Act} {c : Int} (h : SinglePhase top c) : LateOK [] top := by
-  intro o d ⟨x, hx, _, hlt⟩ hne
-  exfalso
-  obtain ⟨a, as, hG⟩ := exists_cons_of_ne_nil hne
-  have : a ∈ withKey (atOrd o top) d := by rw [hG]; simp
-  have ha := mem_atOrd.mp (mem_withKey.mp this).1
-  rw [List.nil_append] at hx
-  have := h a ha.1
-  have := h x hx
-  omega
 
 theorem specRun_singlePhase {top : List Act} {c : Int} (h : SinglePhase top c) :
     specRun top = match contested [] top with
@@ -235,7 +215,7 @@ theorem static_resolution (top : List Act) (c : Int) (hn : IdsNodup top) (hp : P
     (∀ a ∈ top, ∀ d, a.key = some d → (isWinner top a = true ↔ Wins top d a)) ∧
     (∀ ks, (run noKids fuel top).1 = .conflict ks →
         (run noKids fuel top).2 = [] ∧ ∀ d, d ∈ ks ↔ ((∃ x ∈ top, x.key = some d) ∧ ¬ ∃ w, Wins top d w)) := by
-  rw [run_static top hn hp (singlePhase_lateOK hs) fuel hf, specRun_singlePhase hs]
+  rw [run_static top hn hp fuel hf, specRun_singlePhase hs]
   have hcont : ∀ d, d ∈ contested [] top ↔ ((∃ x ∈ top, x.key = some d) ∧ ¬ ∃ w, Wins top d w) := by
     intro d
     rw [contested_iff]
@@ -277,7 +257,7 @@ Used by C08 and C20. -/
 theorem conflict_free_is_sorted (top : List Act) (hn : IdsNodup top) (hp : Plain top) (hd : DistinctKeys top)
     (fuel : Nat) (hf : top.length < fuel) :
     run noKids fuel top = (.ok, (phaseSort top).map (·.id)) := by
-  rw [run_static top hn hp hd.lateOK fuel hf]
+  rw [run_static top hn hp fuel hf]
   simp only [specRun]
   rw [specPhases_conflict_free _ [] top (by simpa using hd) (by simpa using hn) (Nat.lt_succ_self _)]
   simp [phaseSort]
@@ -414,6 +394,108 @@ theorem no_spurious_refusal (kids : Nat → List Act) (top : List Act) (st st' :
       omega
     · exact ⟨x, hx, hxo⟩
 
+/-! ### whole-run invariants of re-entrant commits
+
+Standing assumption of this block: the actions declared during the commit carry pairwise distinct ids,
+`IdsNodup (declared kids top L)` with `declared kids top L` = the top-level actions followed by what each
+executed action appended, in execution order.  It is a decidable condition on the result of a run, and
+holds for every run of a program that is statically well-formed (`wf_declares_distinct_ids`). -/
+
+/-- A program whose top-level actions and appended actions all carry different ids (`WFProg`: ids of `top`
+distinct, ids of each `kids i` distinct, disjoint from `top` and from every other `kids j`) never declares an
+id twice, in any state its commit can reach. -/
+theorem wf_declares_distinct_ids (kids : Nat → List Act) (top : List Act) (hw : WFProg kids top) (st : St)
+    (hr : Reachable kids top st) : IdsNodup (declared kids top st.log) :=
+  hr.wf hw
+
+/-- `one_action_per_discriminator` — FULL, re-entrant: whatever the outcome, whatever actions append while
+executing (thunk discriminators included), no action ran twice and no two executed actions carry the same
+discriminator — across phases, generator restarts and queue leftovers alike. -/
+theorem one_action_per_discriminator (kids : Nat → List Act) (top : List Act) (fuel : Nat)
+    (hn : IdsNodup (declared kids top (exec kids fuel (initSt top)).2.log)) :
+    IdsNodup (exec kids fuel (initSt top)).2.log ∧
+    ∀ a ∈ (exec kids fuel (initSt top)).2.log, ∀ b ∈ (exec kids fuel (initSt top)).2.log, ∀ d,
+      a.key = some d → b.key = some d → a = b := by
+  obtain ⟨st, hr, hlog, _⟩ := exec_reachable (kids := kids) (top := top) fuel (initSt top) Reachable.init
+  rw [hlog] at hn ⊢
+  have hI := (hr.rinv hn).1
+  exact ⟨hI.logNodup, fun a ha b hb d hda hdb => keys_unique hI.logKeys ha hb hda hdb⟩
+
+/-- `order_thm`, declaration order — FULL, re-entrant: the executed sequence is non-decreasing in phase and,
+inside every phase, the executed actions ran in the order in which they were declared (their ids form a
+sub-sequence of the ids of the declared actions of that phase, appended actions counting as declared when
+their parent ran); every executed action is a declared one (same id, phase, include path; discriminator as
+declared or the thunk's value). -/
+theorem order_thm_reentrant (kids : Nat → List Act) (top : List Act) (fuel : Nat)
+    (hn : IdsNodup (declared kids top (exec kids fuel (initSt top)).2.log)) :
+    (exec kids fuel (initSt top)).2.log.reverse.Pairwise (fun a b => a.order ≤ b.order) ∧
+    (∀ o, (ordIds o (exec kids fuel (initSt top)).2.log.reverse).Sublist
+        (ordIds o (declared kids top (exec kids fuel (initSt top)).2.log))) ∧
+    ∀ a ∈ (exec kids fuel (initSt top)).2.log, ∃ x ∈ declared kids top (exec kids fuel (initSt top)).2.log, Orig x a := by
+  refine ⟨order_thm kids top fuel, ?_⟩
+  obtain ⟨st, hr, hlog, _⟩ := exec_reachable (kids := kids) (top := top) fuel (initSt top) Reachable.init
+  rw [hlog] at hn ⊢
+  have hI := (hr.rinv hn).1
+  refine ⟨fun o => ?_, fun a ha => hI.orig a (Or.inl ha)⟩
+  exact ((List.sublist_append_left _ _).trans (List.sublist_append_left _ _)).trans (hI.ord o)
+
+/-- `discarded_is_dominated`, any reachable state — FULL: every action declared so far has been executed, or
+is still waiting, or lies strictly below (include path) an executed or still waiting action whose
+discriminator is its own (for a thunk: one of its two values). -/
+theorem discarded_is_dominated_any_state (kids : Nat → List Act) (top : List Act) (st : St)
+    (hr : Reachable kids top st) (hn : IdsNodup (declared kids top st.log)) :
+    ∀ x ∈ declared kids top st.log,
+      (∃ r, (r ∈ st.log ∨ r ∈ st.remaining ∨ r ∈ st.pending) ∧ r.id = x.id) ∨
+      ∃ p, (p ∈ st.log ∨ p ∈ st.remaining) ∧ ∃ d, p.key = some d ∧ StrictPrefix p.path x.path ∧
+        ∃ done, (x.disc.eval done).key = some d :=
+  (hr.rinv hn).1.dom
+
+/-- `discarded_is_dominated` — FULL, re-entrant, for commits that end normally: every declared action was
+executed, or it lies strictly below an *executed* action with its discriminator and was silently
+discarded; in particular every action without discriminator ran, and with `one_action_per_discriminator`
+exactly one action ran for every discriminator that was declared. -/
+theorem discarded_is_dominated (kids : Nat → List Act) (top : List Act) (fuel : Nat)
+    (hok : (exec kids fuel (initSt top)).1 = .ok)
+    (hn : IdsNodup (declared kids top (exec kids fuel (initSt top)).2.log)) :
+    ∀ x ∈ declared kids top (exec kids fuel (initSt top)).2.log,
+      ((∃ a ∈ (exec kids fuel (initSt top)).2.log, a.id = x.id) ∨
+        ∃ p ∈ (exec kids fuel (initSt top)).2.log, ∃ d, p.key = some d ∧ StrictPrefix p.path x.path ∧
+          ∃ done, (x.disc.eval done).key = some d) ∧
+      (x.disc = .none → ∃ a ∈ (exec kids fuel (initSt top)).2.log, a.id = x.id) := by
+  obtain ⟨st, hr, hdone⟩ := exec_ok fuel (initSt top) Reachable.init hok
+  generalize (exec kids fuel (initSt top)).2 = stF at hdone hn ⊢
+  have hlog : stF.log = st.log := by
+    have := next_log st
+    rw [hdone] at this; exact this
+  rw [hlog] at hn
+  obtain ⟨hI, hrem, hpend, _⟩ := next_done hn (hr.rinv hn) hdone
+  rw [hlog]
+  intro x hx
+  have key : (∃ a ∈ st.log, a.id = x.id) ∨ ∃ p ∈ st.log, ∃ d, p.key = some d ∧ StrictPrefix p.path x.path ∧
+      ∃ done, (x.disc.eval done).key = some d := by
+    rcases hI.dom x hx with ⟨r, hr', hrx⟩ | ⟨p, hp, rest⟩
+    · rcases hr' with h | h | h
+      · exact Or.inl ⟨r, hlog ▸ h, hrx⟩
+      · rw [hrem] at h; cases h
+      · rw [hpend] at h; cases h
+    · rcases hp with h | h
+      · exact Or.inr ⟨p, hlog ▸ h, rest⟩
+      · rw [hrem] at h; cases h
+  refine ⟨key, fun hnone => ?_⟩
+  rcases key with h | ⟨p, _, d, _, _, done, hd⟩
+  · exact h
+  · rw [hnone] at hd; cases hd
+
+/-- `fuel_suffices` — FULL relative to its bound: if at most `N` actions are ever declared during the commit
+(and their ids are distinct), `N + 1` turns of the `execute_actions` loop suffice, and the resolver's own
+iteration bound is never hit: the model's outcome is never `fuel`.  (The driver runs with
+`fuel = number of nodes of the case + 1`.) -/
+theorem fuel_suffices (kids : Nat → List Act) (top : List Act) (N : Nat)
+    (hb : ∀ st, Reachable kids top st →
+      IdsNodup (declared kids top st.log) ∧ (declared kids top st.log).length ≤ N) :
+    (exec kids (N + 1) (initSt top)).1 ≠ .fuel :=
+  exec_fuel N hb (N + 1) (initSt top) Reachable.init (by simp [initSt])
+
 /-- F-C04a, the regression witness for `no_spurious_refusal` (corpus/C04/f_c04a_*.json; the unrepaired
 code answered `regress 0 10` here): an overridden action in phase 0, then a phase-10 action that
 appends another phase-10 action. -/
@@ -428,9 +510,9 @@ theorem overridden_action_does_not_linger :
 example :
     let top : List Act := [⟨0, .val 1, 0, []⟩, ⟨1, .val 1, 0, [5]⟩, ⟨2, .none, 0, [5]⟩,
                            ⟨3, .val 2, 10, [5]⟩, ⟨4, .val 2, 10, [6]⟩]
-    IdsNodup top ∧ Plain top ∧ LateOK [] top ∧ run noKids 6 top = (.conflict [2], [0, 2]) ∧
+    IdsNodup top ∧ Plain top ∧ run noKids 6 top = (.conflict [2], [0, 2]) ∧
       specRun top = (.conflict [2], [0, 2]) := by
-  exact ⟨by decide, by decide, lateOK_of_b (by decide), by decide, by decide⟩
+  exact ⟨by decide, by decide, by decide, by decide⟩
 
 /-- single phase: an override chain, an action without discriminator, all accepted -/
 example :
@@ -444,6 +526,44 @@ example :
     let top : List Act := [⟨0, .val 1, 10, [1]⟩, ⟨1, .none, 0, []⟩, ⟨2, .val 2, -10, [7]⟩, ⟨3, .none, 10, []⟩, ⟨4, .val 3, 0, [1]⟩]
     IdsNodup top ∧ Plain top ∧ DistinctKeys top ∧ run noKids 6 top = (.ok, [2, 1, 4, 0, 3]) := by
   refine ⟨by decide, by decide, by decide, by decide⟩
+
+/-- the hypotheses of the whole-run theorems on a re-entrant program with a thunk: action 1 appends action 2
+(same discriminator as the executed action 0, deeper: discarded), action 3 (thunk that evaluates to the same
+discriminator because 0 ran: discarded) and action 4 (no discriminator: runs).  The declared ids are
+distinct, the commit ends normally, the executed sequence is `[0, 1, 4]`; the program is statically
+well-formed and declares at most `2 + 3` actions, so fuel 6 suffices. -/
+example :
+    let kids : Nat → List Act := fun i =>
+      if i = 1 then [⟨2, .val 1, 0, [3]⟩, ⟨3, .deferred 0 (some 1) none, 0, [4]⟩, ⟨4, .none, 0, []⟩] else []
+    let top : List Act := [⟨0, .val 1, 0, []⟩, ⟨1, .none, 0, []⟩]
+    exec kids 6 (initSt top) = (.ok, { log := [⟨4, .none, 0, []⟩, ⟨1, .none, 0, []⟩, ⟨0, .val 1, 0, []⟩], minOrder := some 0 }) ∧
+    IdsNodup (declared kids top (exec kids 6 (initSt top)).2.log) ∧
+    (declared kids top (exec kids 6 (initSt top)).2.log).map (·.id) = [0, 1, 2, 3, 4] ∧
+    WFProg kids top ∧
+    (∀ st, Reachable kids top st →
+      IdsNodup (declared kids top st.log) ∧ (declared kids top st.log).length ≤ 5) := by
+  intro kids top
+  have hw : WFProg kids top := by
+    refine ⟨by decide, ?_, ?_, ?_⟩
+    · intro i
+      by_cases e : i = 1
+      · subst e; decide
+      · simp only [kids, e, if_false]; decide
+    · intro i k hk t ht
+      by_cases e : i = 1
+      · subst e
+        simp only [kids, if_true, List.mem_cons, List.not_mem_nil, or_false] at hk
+        simp only [top, List.mem_cons, List.not_mem_nil, or_false] at ht
+        rcases hk with rfl | rfl | rfl <;> rcases ht with rfl | rfl <;> decide
+      · simp [kids, e] at hk
+    · intro i j hij k hk k' hk'
+      by_cases e : i = 1
+      · have e' : j ≠ 1 := fun h => hij (e.trans h.symm)
+        simp [kids, e'] at hk'
+      · simp [kids, e] at hk
+  refine ⟨by decide, by decide, by decide, hw, ?_⟩
+  intro st hr
+  exact single_parent_bound (i0 := 1) hw (fun i hi => by simp [kids, hi]) st hr
 
 /-- the hypotheses of `phase_regression_refused`: action 0 (phase 10) appends action 1 (phase 0) -/
 example :
